@@ -121,28 +121,31 @@ class MemoryBank(Elaboratable):
         overflow_next = [Signal(self.shape) for _ in range(self.reads_ports)]
         overflow_addr = [Signal(range(self.depth), reset_less=True) for _ in range(self.reads_ports)]
 
+        def bypass_writes(addr: Value, data: Value) -> Value:
+            # The value of the memory cell `addr` in the next clock cycle, given its current value `data`.
+            # Each write granule is bypassed separately, according to the write mask.
+            data = Value.cast(data)
+            granules = len(write_port[0].en) if write_port else 1
+            granule_width = len(data) // granules
+            result = []
+            for g in range(granules):
+                bits = slice(g * granule_width, (g + 1) * granule_width)
+                result.append(
+                    OneHotMux.create(
+                        m,
+                        [
+                            (write_port[j].en[g] & (write_port[j].addr == addr), Value.cast(write_port[j].data)[bits])
+                            for j in range(self.writes_ports)
+                        ],
+                        data[bits],
+                    )
+                )
+            return Cat(result)
+
         for i in range(self.reads_ports):
             if self.read_on_resp:
-                read_output_addr_match = [
-                    write_port[j].en & (write_port[j].addr == read_output_addr[i]) for j in range(self.writes_ports)
-                ]
-                overflow_addr_match = [
-                    write_port[j].en & (write_port[j].addr == overflow_addr[i]) for j in range(self.writes_ports)
-                ]
-                m.d.comb += read_output_next[i].eq(
-                    OneHotMux.create(
-                        m,
-                        [(read_output_addr_match[j], write_port[j].data) for j in range(self.writes_ports)],
-                        read_port[i].data,
-                    )
-                )
-                m.d.comb += overflow_next[i].eq(
-                    OneHotMux.create(
-                        m,
-                        [(overflow_addr_match[j], write_port[j].data) for j in range(self.writes_ports)],
-                        overflow_data[i],
-                    )
-                )
+                m.d.comb += read_output_next[i].eq(bypass_writes(read_output_addr[i], read_port[i].data))
+                m.d.comb += overflow_next[i].eq(bypass_writes(overflow_addr[i], overflow_data[i]))
                 m.d.sync += overflow_data[i].eq(overflow_next[i])
             else:
                 m.d.comb += read_output_next[i].eq(read_port[i].data)
